@@ -63,6 +63,8 @@ def drive(asl, data, maxsteps=MAXSTEPS):
     """Run the real engine on `asl` (stored under SM_ARN) from a start event, FIFO.
     Returns (outcome, detail):
       ("illegal", cause)   terminal FAILED, States.Runtime, cause from one of the four defences
+      ("restarted", n)     the execution was started n > 1 times: a transition to an empty/missing state
+                           name is taken for a start event (the silent fifth manifestation of a dangling target)
       ("failed", error)    any other terminal FAILED
       ("succeeded", out)   terminal SUCCEEDED
       ("crashed", Exc)     an exception escaped StateEngine.notify (dispatch would drop the event)
@@ -112,12 +114,18 @@ def drive(asl, data, maxsteps=MAXSTEPS):
             pending.append(copy.deepcopy(pubs[consumed][1]))
             consumed += 1
     term = None
+    running = 0
     for l in log:
         if l[0] == "broadcast":
             d = l[2].get("detail", {})
-            if d.get("status") in ("FAILED", "SUCCEEDED", "ABORTED", "TIMED_OUT"):
+            if d.get("status") == "RUNNING":
+                running += 1
+            if term is None and d.get("status") in ("FAILED", "SUCCEEDED", "ABORTED", "TIMED_OUT"):
                 term = d
-                break
+    if term is not None and term.get("error") == "States.Runtime" and ILLEGAL in (term.get("cause") or ""):
+        return ("illegal", defence(term.get("cause") or ""))
+    if running > 1:
+        return ("restarted", running)
     if term is not None:
         if term["status"] == "SUCCEEDED":
             return ("succeeded", term.get("output"))
@@ -162,8 +170,9 @@ def agree(asl, both=True):
 
 def agrees(verdict):
     """Post of group (B): the validator did not raise, and an accepted definition did
-    not die on one of the four Illegal-State-Machine defences."""
-    return not verdict.startswith("raised") and "illegal" not in verdict
+    not die on one of the four Illegal-State-Machine defences (nor restart itself through
+    a transition to an empty state name)."""
+    return not verdict.startswith("raised") and "illegal" not in verdict and "restarted" not in verdict
 
 
 # --------------------------------------------------------------------------- skeleton
@@ -498,7 +507,7 @@ _A_OUT = ["JSON values outside the generated shapes: one mutated member (any JSO
           "or the top-level shapes of lint_any_top; string CONTENT is covered symbolically only at the sinks of lint_sym_string"]
 
 
-@condition(timeout={"quick": 90, "thorough": 300}, bounds={"quick": {"K2": "k2 in (0, 3, 9)"}, "thorough": {"K2": "True"}},
+@condition(timeout={"quick": 180, "thorough": 300}, bounds={"quick": {"K2": "k2 in (0, 3, 9)"}, "thorough": {"K2": "True"}},
            functions=["StateLint.validate", "Validator.validate", "NodeValidator.validate_node", "StateNode.check"], outside=_A_OUT)
 def lint_any_top(shape: int, k1: int, k2: int, i: int, si: int, b: bool) -> bool:
     """
@@ -570,7 +579,7 @@ def _make_lint_state(tp):
     fields = COMMON + ROLE_FIELDS[tp]
     name = "lint_state_" + tp
 
-    @condition(timeout={"quick": 60, "thorough": 200}, functions=_A_FUNCS, outside=_A_OUT)
+    @condition(timeout={"quick": 180, "thorough": 200}, functions=_A_FUNCS, outside=_A_OUT)
     def cond(f: int, k: int, i: int, si: int, b: bool) -> bool:
         """
         requires: 0 <= f < NF and 0 <= k < NK and leaves_ok((k,), i, si, b)
@@ -590,7 +599,7 @@ def _make_lint_sub(idx):
     role, fields = SUBROLES[idx]
     name = "lint_sub_" + role
 
-    @condition(timeout={"quick": 60, "thorough": 200}, functions=_A_FUNCS, outside=_A_OUT)
+    @condition(timeout={"quick": 180, "thorough": 200}, functions=_A_FUNCS, outside=_A_OUT)
     def cond(f: int, k: int, i: int, si: int, b: bool) -> bool:
         """
         requires: 0 <= f < NF and 0 <= k < NK and leaves_ok((k,), i, si, b)
@@ -613,7 +622,7 @@ SINKS = [("state", "Wait", "Timestamp"), ("sub", "Rule", "TimestampEquals"), ("s
          ("sub", "Rule", "StringEqualsPath"), ("state", "Choice", "Default")]
 
 
-@condition(timeout={"quick": 120, "thorough": 900}, bounds={"quick": {"N": 2, "AL": "'Z.$a:T'"}, "thorough": {"N": 4, "AL": "'Z.$a:T'"}},
+@condition(timeout={"quick": 180, "thorough": 900}, bounds={"quick": {"N": 2, "AL": "'Z.$a:T'"}, "thorough": {"N": 4, "AL": "'Z.$a:T'"}},
            functions=["FieldTypeConstraint.value_check (timestamp / URI / JSONPath / referencePath / string branches) on a symbolic string",
                       "FieldValueConstraint.check (enum)", "StateNode.add_next", "StateNode.probe_payload_template/is_intrinsic_invocation",
                       "JSONPathChecker regexes"],
@@ -631,6 +640,210 @@ def lint_sym_string(w: int, s: str) -> bool:
     return lint_total(m)
 
 
+# --------------------------------------------------------------------------- (C) poison isolation
+H_ARN = "arn:aws:states:local:0123456789:stateMachine:healthy"
+P_ARN = "arn:aws:states:local:0123456789:stateMachine:poison"
+U_ARN = "arn:aws:states:local:0123456789:stateMachine:unknown"
+HEALTHY = {"StartAt": "H1", "States": {"H1": {"Type": "Pass", "Next": "H2"}, "H2": {"Type": "Pass", "End": True}}}
+stubs.install_env(edm)
+
+
+class FakeMsg:
+    """The delivery as the messaging layer hands it to dispatch()."""
+    def __init__(self, body, mid):
+        self.body = body
+        self.message_id = mid
+        self.redelivered = False
+        self.acks = 0
+
+    def acknowledge(self, multiple=False):
+        self.acks += 1
+
+
+class World:
+    """A real StateEngine + a real EventDispatcher (dispatch/acknowledge) without a broker."""
+    def __init__(self, stored):
+        self.eng, self.log = stubs.make_engine(HEALTHY)
+        rec = self.eng.asl_store[SM_ARN]
+        del self.eng.asl_store[SM_ARN]
+        h = dict(rec); h["stateMachineArn"] = H_ARN; h["name"] = "healthy"
+        self.eng.asl_store[H_ARN] = h
+        if stored is not ABSENT:
+            p = dict(rec); p["stateMachineArn"] = P_ARN; p["name"] = "poison"; p["definition"] = stored
+            self.eng.asl_store[P_ARN] = p
+        ed = edm.EventDispatcher.__new__(edm.EventDispatcher)
+        ed.logger = stubs.SILENT
+        ed.unacknowledged_messages = {}
+        ed.state_engine = self.eng
+        self.queue = []            # published, not yet delivered event bodies (FIFO)
+        self.timers = []
+        log = self.log
+
+        def publish(item, threadsafe=False, use_shared_queue=False):
+            self.queue.append(_json.dumps(item).encode("utf8"))
+
+        def broadcast(subject, item, carrier_properties=None):
+            log.append(("broadcast", subject, copy.deepcopy(item)))
+
+        def set_timeout(cb, delay):
+            if delay == 0:
+                cb()
+            else:
+                self.timers.append(cb)
+            return len(self.timers)
+
+        ed.publish = publish; ed.broadcast = broadcast; ed.set_timeout = set_timeout
+        ed.clear_timeout = lambda tid: None
+        self.ed = ed
+        self.eng.event_dispatcher = ed
+        self.n = 0
+        self.msgs = []
+        self.escaped = None
+
+    def deliver(self, body):
+        self.n += 1
+        m = FakeMsg(body, "d%d" % self.n)
+        self.msgs.append(m)
+        try:
+            self.ed.dispatch(m)
+        except Exception as e:
+            self.escaped = type(e).__name__
+        return m
+
+    def drain(self, bound=8):
+        k = 0
+        while self.queue and k < bound:
+            self.deliver(self.queue.pop(0))
+            k += 1
+
+    def statuses(self, execution_arn):
+        return [l[2]["detail"].get("status") for l in self.log
+                if l[0] == "broadcast" and l[2].get("detail", {}).get("executionArn") == execution_arn]
+
+    def output(self, execution_arn):
+        for l in self.log:
+            if l[0] == "broadcast" and l[2]["detail"].get("executionArn") == execution_arn and l[2]["detail"].get("status") == "SUCCEEDED":
+                return l[2]["detail"].get("output")
+        return None
+
+
+def ex_arn(arn, name):
+    return arn.replace(":stateMachine:", ":execution:") + ":" + name
+
+
+def start_event(arn, name, data, extra_ctx=None, sm_extra=None):
+    sm = {"Id": arn}
+    if sm_extra:
+        sm.update(sm_extra)
+    ctx = {"StateMachine": sm, "Execution": {"Id": ex_arn(arn, name), "Name": name}}
+    if extra_ctx:
+        ctx.update(extra_ctx)
+    return {"data": data, "context": ctx}
+
+
+BROKEN = [
+    {"StartAt": "X", "States": {"A": {"Type": "Pass", "End": True}}},          # 9/0 StartAt dangling
+    {"StartAt": "A"},                                                          # 9/1 States missing
+    {"StartAt": "A", "States": {"A": {"End": True}}},                          # 9/2 state without Type
+    {"States": {"A": {"Type": "Pass", "End": True}}},                          # 9/3 StartAt missing
+    {"StartAt": "A", "States": None},                                          # 9/4
+    {"StartAt": "A", "States": {"A": None}},                                   # 9/5
+    {"StartAt": "A", "States": {"A": {"Type": "Foo", "End": True}}},           # 9/6 unknown Type
+    {"StartAt": "A", "States": {"A": {"Type": "Pass", "Next": "X"}}},          # 9/7 dangling Next
+    {"StartAt": "A", "States": {"A": {"Type": "Pass"}}},                       # 10/0 missing Next
+    {"StartAt": "A", "States": {"A": {"Type": "Choice"}}},                     # 10/1 missing Choices
+    {"StartAt": "A", "States": {"A": {"Type": "Parallel", "Branches": [{}], "End": True}}},                       # 10/2 branch without StartAt
+    {"StartAt": "A", "States": {"A": {"Type": "Map", "Iterator": {"StartAt": "Q"}, "End": True}}},                # 10/3 iterator without States
+    5, "x", [1], True,                                                          # 10/4-7 stored definition is not an object
+    {"StartAt": "", "States": {"A": {"Type": "Pass", "End": True}}},           # 13/0 empty-string targets
+    {"StartAt": "A", "States": {"A": {"Type": "Pass", "Next": ""}}},           # 13/1
+    {"StartAt": "A", "States": {"A": {"Type": "Parallel", "Branches": [], "End": True}}},                          # 13/2
+    {"StartAt": "A", "States": {"A": {"Type": "Parallel", "Branches": [{"StartAt": "", "States": {}}], "End": True}}},   # 13/3
+    {"StartAt": "A", "States": {"A": {"Type": "Choice", "Choices": [], "Default": ""}}},                           # 13/4
+    {"StartAt": "A", "States": [{"A": {"Type": "Pass", "End": True}}]},        # 13/5 wrong JSON types
+    {"StartAt": ["A"], "States": {"A": {"Type": "Pass", "End": True}}},        # 13/6
+    {"StartAt": "A", "States": {"A": {"Type": ["Pass"], "End": True}}},        # 13/7
+]
+WRONG = [5, "x", [], {}, None, True, [1], {"x": 1}]
+NOTJSON = [b"", b"{", b"abc", b"[1,", b"\xff\xfe", b"{'a': 1}", b"{\"context\": ", b"nul"]
+
+
+def poison_body(kind, sub):
+    """(body bytes, stored definition for P_ARN or ABSENT, execution ARN identified by the event or None)"""
+    pex = ex_arn(P_ARN, "p1")
+    if kind == 0:
+        return pick(NOTJSON, sub), ABSENT, None
+    if kind == 1:
+        return _json.dumps(pick([5, "x", True, None, 1.5, -1, "", 0], sub)).encode(), ABSENT, None
+    if kind == 2:
+        return _json.dumps(pick([[], [1], [{"context": {}}], [[]], ["context"], [None], [{}], [1, 2]], sub)).encode(), ABSENT, None
+    if kind == 3:
+        return _json.dumps(pick([{}, {"data": {}}, {"context": None}, {"Context": {}}, {"data": None}, {"x": 1}, {"": 0},
+                                 {"data": {"context": {}}}], sub)).encode(), ABSENT, None
+    if kind == 4:
+        return _json.dumps({"data": {}, "context": pick(WRONG, sub)}).encode(), ABSENT, None
+    if kind == 5:
+        return _json.dumps({"data": {}, "context": {"StateMachine": pick(WRONG, sub)}}).encode(), ABSENT, None
+    if kind == 6:
+        ident = pick([5, [], {}, "", "x", None, "arn:aws", "a:b:c:d:e:f:g"], sub)
+        return _json.dumps({"data": {}, "context": {"StateMachine": {"Id": ident}}}).encode(), ABSENT, None
+    if kind == 7:
+        ev = start_event(U_ARN, "p1", {})
+        ev["context"].update(pick([{}, {"State": {"Name": "A"}}, {"State": {}}, {"State": None}, {"State": 5},
+                                   {"Execution": 5}, {"Execution": {}}, {"Tracer": 5}], sub))
+        return _json.dumps(ev).encode(), ABSENT, ex_arn(U_ARN, "p1")
+    if kind == 8:
+        ev = start_event(P_ARN, "p1", {}, sm_extra={"Definition": pick(WRONG, sub)})
+        return _json.dumps(ev).encode(), ABSENT, pex
+    if kind in (9, 10, 13):
+        i = sub + (0 if kind == 9 else 8 if kind == 10 else 16)
+        return _json.dumps(start_event(P_ARN, "p1", [0])).encode(), pick(BROKEN, i), pex
+    if kind == 11:      # in-flight event of a stored well-formed machine naming an impossible position
+        ev = start_event(P_ARN, "p1", {})
+        ev["context"].update(pick([{"State": {"Name": "Q"}}, {"State": {"Name": 5}}, {"State": {"Name": ["H1"]}}, {"State": 5},
+                                   {"State": "H1"}, {"Execution": 5}, {"Execution": None}, {"State": {"Name": "H1", "Branch": 5}}], sub))
+        return _json.dumps(ev).encode(), HEALTHY, pex
+    # kind 12: data of an unusual shape for a well-formed definition stored under the poison ARN (control: may succeed)
+    ev = start_event(P_ARN, "p1", pick([None, 5, "x", [], [1], True, {"Error": "x"}, {"x": {"y": []}}], sub))
+    return _json.dumps(ev).encode(), HEALTHY, pex
+
+
+def poison_run(kind, sub, late):
+    """Verdict string; "ok" when every clause of the isolation claim holds."""
+    stubs.SeqUUID.reset()
+    body, stored, pex = poison_body(kind, sub)
+    w = World(stored)
+    h1 = ex_arn(H_ARN, "h1"); h2 = ex_arn(H_ARN, "h2")
+    w.deliver(_json.dumps(start_event(H_ARN, "h1", {"v": 1})).encode())
+    if late:
+        w.drain(1)
+    pm = w.deliver(body)
+    if w.escaped:
+        return "escaped:" + w.escaped
+    if pm.acks != 1:
+        return "poison-acks:%d" % pm.acks
+    w.drain()
+    w.deliver(_json.dumps(start_event(H_ARN, "h2", {"v": 2})).encode())
+    w.drain()
+    if w.escaped:
+        return "escaped-later:" + w.escaped
+    if w.statuses(h1) != ["RUNNING", "SUCCEEDED"] or w.output(h1) != '{"v": 1}':
+        return "healthy1:%s" % w.statuses(h1)
+    if w.statuses(h2) != ["RUNNING", "SUCCEEDED"] or w.output(h2) != '{"v": 2}':
+        return "healthy2:%s" % w.statuses(h2)
+    for m in w.msgs:
+        if m.acks != 1:
+            return "acks:%s=%d" % (m.message_id, m.acks)
+    if w.queue:
+        return "poison-live"            # healthy executions fine, but the poison execution is still circulating
+    if pex is not None:
+        st = w.statuses(pex)
+        term = [s for s in st if s != "RUNNING"]
+        if kind != 12 and (len(term) > 1 or any(s != "FAILED" for s in term)):
+            return "poison-status:%s" % st
+    return "ok"
+
+
 # --------------------------------------------------------------------------- (B) conditions
 _B_FUNCS = ["StateLint.validate", "NodeValidator.validate_node + every J2119 constraint class", "StateNode.check/check_next/add_next/check_for_terminal",
             "StateEngine.notify (all asl_state_* handlers, handle_error, handle_terminal_state, asl_state_collect_results)",
@@ -639,7 +852,7 @@ _B_OUT = ["machines larger than the skeleton (3 top-level states; one Parallel/M
           "run-time outcomes other than the four 'Illegal State Machine' defences (an accepted definition may still fail for data reasons, loop, or stall: reported in notes/C18.md, not part of the claim's oracle)"]
 
 
-@condition(timeout={"quick": 90, "thorough": 600}, functions=_B_FUNCS, outside=_B_OUT,
+@condition(timeout={"quick": 180, "thorough": 600}, functions=_B_FUNCS, outside=_B_OUT,
            bounds={"quick": {"SA": "(0, 1, 3, 4, 5, 6)", "NP": "(0, 1, 2, 4, 5, 6)"}, "thorough": {"SA": "range(7)", "NP": "range(8)"}})
 def agree_targets_top(choice: bool, sa: int, n1: int, n2: int, np_: int) -> bool:
     """
@@ -650,7 +863,7 @@ def agree_targets_top(choice: bool, sa: int, n1: int, n2: int, np_: int) -> bool
     return agrees(verdict(build_targets_top(choice, sa, n1, n2, np_)))
 
 
-@condition(timeout={"quick": 60, "thorough": 300}, functions=_B_FUNCS, outside=_B_OUT)
+@condition(timeout={"quick": 180, "thorough": 300}, functions=_B_FUNCS, outside=_B_OUT)
 def agree_targets_catch(kind: int, fails: bool, nc: int, np_: int) -> bool:
     """
     requires: 0 <= kind < 3 and 0 <= nc < 7 and 0 <= np_ < 8
@@ -659,7 +872,7 @@ def agree_targets_catch(kind: int, fails: bool, nc: int, np_: int) -> bool:
     return agrees(verdict(build_targets_catch(kind, fails, nc, np_)))
 
 
-@condition(timeout={"quick": 90, "thorough": 900}, functions=_B_FUNCS, outside=_B_OUT,
+@condition(timeout={"quick": 180, "thorough": 900}, functions=_B_FUNCS, outside=_B_OUT,
            bounds={"quick": {"K": "kind == 0 or (not ichoice and nj == 6)"}, "thorough": {"K": "True"}})
 def agree_targets_inner(kind: int, ichoice: bool, isa: int, ni: int, nd: int, nj: int) -> bool:
     """
@@ -671,7 +884,7 @@ def agree_targets_inner(kind: int, ichoice: bool, isa: int, ni: int, nd: int, nj
     return agrees(verdict(build_targets_inner(kind, ichoice, isa, ni, nd, nj)))
 
 
-@condition(timeout={"quick": 60, "thorough": 300}, functions=_B_FUNCS, outside=_B_OUT)
+@condition(timeout={"quick": 180, "thorough": 300}, functions=_B_FUNCS, outside=_B_OUT)
 def agree_types_a(ta: int, fa: int, na: int) -> bool:
     """
     requires: 0 <= ta < 9 and 0 <= fa < 9 and 0 <= na < 3
@@ -680,7 +893,7 @@ def agree_types_a(ta: int, fa: int, na: int) -> bool:
     return agrees(verdict(build_types_a(ta, fa, na)))
 
 
-@condition(timeout={"quick": 90, "thorough": 300}, functions=_B_FUNCS, outside=_B_OUT)
+@condition(timeout={"quick": 180, "thorough": 300}, functions=_B_FUNCS, outside=_B_OUT)
 def agree_types_p(tp: int, fp: int, ti: int, tj: int) -> bool:
     """
     requires: 0 <= tp < 9 and 0 <= fp < 4 and 0 <= ti < 9 and 0 <= tj < 5
@@ -689,7 +902,7 @@ def agree_types_p(tp: int, fp: int, ti: int, tj: int) -> bool:
     return agrees(verdict(build_types_p(tp, fp, ti, tj)))
 
 
-@condition(timeout={"quick": 90, "thorough": 300}, functions=_B_FUNCS, outside=_B_OUT)
+@condition(timeout={"quick": 180, "thorough": 300}, functions=_B_FUNCS, outside=_B_OUT)
 def agree_kinds_a(ta: int, f: int, k: int) -> bool:
     """
     requires: 0 <= ta < 8 and 0 <= f < len(fields_a(TYPES[ta])) and 0 <= k < len(KINDS)
@@ -698,7 +911,7 @@ def agree_kinds_a(ta: int, f: int, k: int) -> bool:
     return agrees(verdict(build_kinds_a(ta, f, k)))
 
 
-@condition(timeout={"quick": 90, "thorough": 300}, functions=_B_FUNCS, outside=_B_OUT)
+@condition(timeout={"quick": 180, "thorough": 300}, functions=_B_FUNCS, outside=_B_OUT)
 def agree_kinds_rest(fails: bool, achoice: bool, f: int, k: int) -> bool:
     """
     requires: 0 <= f < len(FIELDS_REST) and 0 <= k < len(KINDS)
@@ -710,7 +923,7 @@ def agree_kinds_rest(fails: bool, achoice: bool, f: int, k: int) -> bool:
 PK = [0, 1, 7, 8, 10, 13]       # kinds used in pairs: absent, null, "", "B", [], {}
 
 
-@condition(timeout={"quick": 90, "thorough": 900}, tiers=("thorough",), functions=_B_FUNCS, outside=_B_OUT)
+@condition(timeout={"quick": 180, "thorough": 900}, tiers=("thorough",), functions=_B_FUNCS, outside=_B_OUT)
 def agree_kinds_pair(achoice: bool, f1: int, k1: int, f2: int, k2: int) -> bool:
     """
     requires: 0 <= f1 < f2 < len(FIELDS_REST) and 0 <= k1 < len(PK) and 0 <= k2 < len(PK)
@@ -719,7 +932,7 @@ def agree_kinds_pair(achoice: bool, f1: int, k1: int, f2: int, k2: int) -> bool:
     return agrees(verdict(build_kinds_pair(achoice, f1, pick(PK, k1), f2, pick(PK, k2))))
 
 
-@condition(timeout={"quick": 90, "thorough": 900}, functions=_B_FUNCS, outside=_B_OUT,
+@condition(timeout={"quick": 180, "thorough": 900}, functions=_B_FUNCS, outside=_B_OUT,
            bounds={"quick": {"K": "(kind == 0 and an == 0) or (nk == 0 and pay == 0 and ni < 2)"}, "thorough": {"K": "True"}})
 def agree_names(kind: int, ni: int, nj: int, nk: int, pay: int, an: int) -> bool:
     """
@@ -732,7 +945,7 @@ def agree_names(kind: int, ni: int, nj: int, nk: int, pay: int, an: int) -> bool
 
 
 # a fully traced slice: the same real code under the CrossHair tracer (no fast path), as a cross-check of natively()
-@condition(timeout={"quick": 90, "thorough": 300}, functions=_B_FUNCS,
+@condition(timeout={"quick": 180, "thorough": 300}, functions=_B_FUNCS,
            outside=["cross-check of the concrete fast path on a 36-definition slice of agree_targets_top / agree_types_a"])
 def agree_traced_slice(which: bool, a: int, b: int) -> bool:
     """
@@ -751,7 +964,7 @@ _C_FUNCS = ["EventDispatcher.dispatch", "EventDispatcher.acknowledge", "StateEng
             "StateEngine.log_and_drop", "find_state", "handle_error/end_execution on broken definitions"]
 
 
-@condition(timeout={"quick": 90, "thorough": 300}, functions=_C_FUNCS,
+@condition(timeout={"quick": 180, "thorough": 300}, functions=_C_FUNCS,
            outside=["a poison event that embeds a Definition under the ARN of ANOTHER machine (documented by-value update of that machine)",
                     "a poison event that reuses the execution ARN of a healthy execution",
                     "redelivered=True deliveries; Task/Wait states inside the poison machine (their events are legitimately acknowledged later)",
@@ -762,3 +975,49 @@ def poison_isolation(kind: int, sub: int, late: bool) -> bool:
     ensures: _
     """
     return natively(poison_run, sel(kind, 14), sel(sub, 8), True if late else False) == "ok"
+
+
+def poison_sym_run(pos, s, i):
+    """Traced variant: a short symbolic string / small int placed in the poison delivery."""
+    stubs.SeqUUID.reset()
+    stored = ABSENT
+    if pos == 0:
+        body = s.encode("utf8")                                   # raw body: not JSON, or a JSON scalar/array/object fragment
+    elif pos == 1:
+        ev = start_event(P_ARN, "p1", {}); ev["context"]["State"] = {"Name": s}
+        body = _json.dumps(ev).encode(); stored = HEALTHY         # in-flight event naming state s
+    elif pos == 2:
+        body = _json.dumps({"data": {}, "context": {"StateMachine": {"Id": s}}}).encode()
+    elif pos == 3:
+        body = _json.dumps(start_event(P_ARN, "p1", {}, sm_extra={"Definition": i})).encode()
+    else:
+        body = _json.dumps({"data": i, "context": {"StateMachine": {"Id": P_ARN}, "State": {"Name": i}}}).encode(); stored = HEALTHY
+    w = World(stored)
+    pm = w.deliver(body)
+    if w.escaped:
+        return "escaped:" + w.escaped
+    if pm.acks != 1:
+        return "poison-acks:%d" % pm.acks
+    w.drain(3)
+    w.deliver(_json.dumps(start_event(H_ARN, "h2", {"v": 2})).encode())
+    w.drain(3)
+    if w.escaped:
+        return "escaped-later:" + w.escaped
+    if w.statuses(ex_arn(H_ARN, "h2")) != ["RUNNING", "SUCCEEDED"]:
+        return "healthy2"
+    for m in w.msgs:
+        if m.acks != 1:
+            return "acks:%s=%d" % (m.message_id, m.acks)
+    return "ok"
+
+
+@condition(timeout={"quick": 180, "thorough": 600}, bounds={"quick": {"N": 1, "AL": "'H1{\"'"}, "thorough": {"N": 2, "AL": "'H1{\"[:'"}},
+           functions=_C_FUNCS + ["json.loads of the delivered body"],
+           outside=["strings longer than the tier bound / outside the tier alphabet; ints outside -1..2"])
+def poison_symbolic(pos: int, s: str, i: int) -> bool:
+    """
+    requires: 0 <= pos <= 4 and len(s) <= @N@ and all(c in @AL@ for c in s) and -1 <= i <= 2
+    requires: (pos < 3 and i == 0) or (pos >= 3 and s == "")
+    ensures: _
+    """
+    return poison_sym_run(sel(pos, 5), s, i) == "ok"
